@@ -26,7 +26,22 @@ ENGINES.append({"name": "Xml", "path": "coq/theories/Xml + coq/theories/Base/Ws.
      "kind_free_text": "F2 Gallina model of xml.Minify's loop over the real lexer's tokens (white-space state machine, CDATA, attribute re-quoting), words/runs specification; harness/cmd/xmloracle (token dump + encoding/xml oracle)"})
 ENGINES.append({"name": "JsRename", "path": "coq/theories/Js/Rename*.v + coq/gen/JsTables_gen.v", "serves_properties": ["C02", "C01", "C16"],
      "kind_free_text": "F1 Gallina model of getName/isReserved/renameScope and of whole-program renaming over the parser's scope forest; lexical resolver as specification; alphabets regenerated from source; harness/cmd/jsoracle (forest dump through the verif hook, node vm oracle)"})
+ENGINES.append({"name": "Conc", "path": "coq/theories/Conc + coq/gen/SharedWrites_gen.v", "serves_properties": ["C13"],
+     "kind_free_text": "Gallina model of N goroutines over read-only shared state and of the writer-preferring RWMutex; shared-write facts regenerated from source; harness/cmd/conccheck built with -race"})
 CHECKS = {
+    "C13": {
+        "engine": "Conc", "design_ref": "DESIGN.md section 4 / C13",
+        "technique": "Coq proof over all schedules (interleaving independence, lock protocol) on frame facts regenerated from source + race-detector harness as search",
+        "text": ("Theorems (Props/C13.v), for any number of goroutines and every schedule: each call's final state depends only on the number of its own steps, "
+                 "so any interleaving equals the sequential run; with no registration in flight RLock is enabled in every reachable lock state (no call "
+                 "blocks another, nested re-entry included), and the excluded case (a waiting writer) really blocks. The premise that calls write only "
+                 "goroutine-local state is regenerated from /repo on every run (assignments/inc-dec/appends to package-level variables outside init, writes "
+                 "through an un-copied option struct) and checked by shared_writes_ok. Search: one registered registry used from 2/8/64 goroutines through "
+                 "Minify/Bytes/String/Reader/Writer/Match on all media types incl. re-entrant documents under the race detector; every result compared with "
+                 "the sequential one, option structs deep-compared, command minifiers repeated."),
+        "note": ("Partial: the Go memory model is not modelled (races are visible only to the race detector); the translator sees direct writes, not writes "
+                 "through aliases. Trusted: Coq kernel, translator, race detector, harness."),
+    },
     "C02": {
         "engine": "JsRename", "design_ref": "DESIGN.md section 4 / C02",
         "technique": "Coq proof (injective numeral, pigeonhole for reserved names, induction over the scope forest against a lexical resolver) + correspondence on real scope forests; node vm as search",
